@@ -237,6 +237,20 @@ func (e *Environment) RestoreScopes(depth int) {
 	}
 }
 
+// Declare creates a variable in the innermost scope, shadowing any
+// variable of the same name in an outer scope - or in the global scope.
+//
+// This is what binding the parameters of a function, the variables of a
+// foreach-loop, and `local` declarations require: using SetLocal for
+// them would overwrite a variable of the same name which belongs to a
+// caller, or to an enclosing loop.
+func (e *Environment) Declare(name string, val object.Object) object.Object {
+	if len(e.local) > 0 {
+		e.local[len(e.local)-1][name] = val
+	}
+	return val
+}
+
 // SetLocal stores the value of a variable, by name, but only for the local scope.
 func (e *Environment) SetLocal(name string, val object.Object) object.Object {
 
